@@ -255,6 +255,8 @@ type CachedInstances struct {
 	Info  chan gostatsd.InstanceInfo
 	Tags  int
 	Peeks int64
+	// AfterPeek, see SetAfterPeek
+	AfterPeek func(s gostatsd.Source, hit bool)
 }
 
 func NewCachedInstances() *CachedInstances {
@@ -264,9 +266,21 @@ func NewCachedInstances() *CachedInstances {
 func (c *CachedInstances) Peek(s gostatsd.Source) (*gostatsd.Instance, bool) {
 	atomic.AddInt64(&c.Peeks, 1)
 	c.mu.Lock()
-	defer c.mu.Unlock()
 	i, ok := c.Cache[s]
+	hook := c.AfterPeek
+	c.mu.Unlock()
+	if hook != nil {
+		hook(s, ok) // the answer is decided; whatever the hook does happens before the caller acts on it
+	}
 	return i, ok
+}
+
+// SetAfterPeek installs a function that runs inside Peek after the answer was read from the cache and before it is
+// returned: the harness can let something happen between a caller's cache read and its next step.
+func (c *CachedInstances) SetAfterPeek(f func(s gostatsd.Source, hit bool)) {
+	c.mu.Lock()
+	c.AfterPeek = f
+	c.mu.Unlock()
 }
 func (c *CachedInstances) Set(s gostatsd.Source, i *gostatsd.Instance) {
 	c.mu.Lock()
